@@ -6,11 +6,14 @@ open Proto Pager
 Driver for the C18 model (exe `drv_pager`).
 
   pager.run <mode> <pager 0|1> <writes> <faultpos|-> <bp|other|-> <kind> <spawnok 0|1> <status|sig> <stderrlines>
-      mode: stdin | tty | diffargs | sub | early | oneshot      kind: git | gitdiff | diff | rg
+      mode: stdin | tty | diffargs | sub | early | oneshot | setupabort:<i> | renderabort:<i>
+            (<i> = index into setupPhaseExits / renderPhaseExits)      kind: git | gitdiff | diff | rg
       -> ok <code> <silent 0|1> <events>      events: comma separated, runs of successful writes as w*N
   pager.select <config> <DELTA_PAGER> <BAT_PAGER> <PAGER> <self> <lessversion|-> <quit_if_one_screen 0|1>
       each command: `-` (unset) or x<hex of the shell-split words joined by \n>
       -> ok <source> <stdout|refused|less|other> <x path> <x argv joined by \n> <x bat result | ->
+  pager.exits
+      -> ok <x setupPhaseExits rows `site|kind|via` joined by \n> <x renderPhaseExits rows `site|kind`> <x ownPagerExits rows `site|kind|arm|arg`>
   pager.navsetup <navigate 0|1> <show_themes 0|1> <none|empty|nonempty>
       -> ok <navigate_regex: none|some-empty|given|default> <LESSHISTFILE set 0|1> <x extra args>  |  PANIC <field> ..
 -/
@@ -56,7 +59,11 @@ def parseMode (m kind spawnok status stderr : String) : Option Mode :=
     match k, st, stderr.toNat? with
     | some k, some st, some n => some (.sub k (spawnok = "1") st n)
     | _, _, _ => none
-  | _ => none
+  | _ =>
+    match m.splitOn ":" with
+    | ["setupabort", i] => i.toNat?.map Mode.setupAbort
+    | ["renderabort", i] => i.toNat?.map Mode.renderAbort
+    | _ => none
 
 def stepPager (line : String) : String :=
   match fields line with
@@ -94,6 +101,11 @@ def stepPager (line : String) : String :=
       | .other path argv => s!"ok {src} other {hexOfString path} {hexOfString ("\n".intercalate argv)} {batS}"
       | .unknown => "PANIC model-shape-unknown"
     | _, _, _, _, _ => "ERR"
+  | ["pager.exits"] =>
+    let a := Generated.PagerShape.setupPhaseExits.map (fun e => s!"{e.1}|{e.2.1}|{e.2.2}")
+    let b := Generated.PagerShape.renderPhaseExits.map (fun e => s!"{e.1}|{e.2}")
+    let c := Generated.PagerShape.ownPagerExits.map (fun e => s!"{e.1}|{e.2.1}|{e.2.2.1}|{e.2.2.2}")
+    s!"ok {hexOfString ("\n".intercalate a)} {hexOfString ("\n".intercalate b)} {hexOfString ("\n".intercalate c)}"
   | ["pager.navsetup", nav, st, rc] =>
     let r : Option RegexOpt := match rc with
       | "none" => some .unset | "empty" => some .empty | "nonempty" => some .nonempty | _ => none
